@@ -86,6 +86,9 @@ func tokenizeStream(src io.Reader, normalize bool, dict *dictionary, updateDict 
 	line := 1 // 1s-based count
 	deferredEOL := false
 	deferredWord := false
+	// swallowedEOLs counts line breaks consumed by hyphen joins that have not
+	// been added to the line count yet.
+	swallowedEOLs := 0
 	// the tokenizer uses a local dictionary to conserve memory while
 	// analyzing the input doc to avoid polluting the global dictionary
 	ld := newDictionary()
@@ -125,6 +128,7 @@ func tokenizeStream(src io.Reader, normalize bool, dict *dictionary, updateDict 
 					if obuf[len(obuf)-1] == '-' {
 						obuf = obuf[0 : len(obuf)-1]
 						deferredEOL = true
+						swallowedEOLs++
 						continue
 					}
 
@@ -138,6 +142,13 @@ func tokenizeStream(src io.Reader, normalize bool, dict *dictionary, updateDict 
 					linebuf = nil
 					obuf = nil
 				}
+				// A hyphenated word that ended at this line break (or was never
+				// continued) leaves the join state behind; settle it here so that it
+				// neither glues following words together nor splits the next line.
+				deferredEOL = false
+				deferredWord = false
+				line += swallowedEOLs
+				swallowedEOLs = 0
 				if !normalize {
 					tokID := dict.getIndex(eol)
 					if tokID == unknownIndex {
@@ -188,6 +199,8 @@ func tokenizeStream(src io.Reader, normalize bool, dict *dictionary, updateDict 
 					// Increment the line count now so the remainder token is credited
 					// to the previous line number.
 					line++
+					line += swallowedEOLs - 1
+					swallowedEOLs = 0
 				}
 				obuf = make([]byte, 0)
 				continue
